@@ -79,11 +79,37 @@ type c20In struct {
 	Tok  hx     `json:"token"`
 }
 
+// c20Decode / c20Unmarshal: a registered profile's decoder may have a bug of
+// its own and panic (the harness registers one that does, for one claim
+// value). That is not a library panic; but it is certainly not a payload
+// that decoded: whatever the library does with the panic, it must not report
+// success. A panic that reaches the caller counts as "did not succeed".
+func c20Decode(tok []byte) (ev *psatoken.Evidence, err error) {
+	defer func() {
+		if r := recover(); r != nil {
+			ev, err = nil, fmt.Errorf("panic reached the caller: %v", r)
+		}
+	}()
+	return psatoken.DecodeEvidenceFromCOSE(tok)
+}
+
+func c20Unmarshal(ev *psatoken.Evidence, tok []byte) (err error) {
+	defer func() {
+		if r := recover(); r != nil {
+			err = fmt.Errorf("panic reached the caller: %v", r)
+		}
+	}()
+	return ev.UnmarshalCOSE(tok)
+}
+
 var c20Kind = registerKind("c20", func(in c20In) string {
+	if strings.Contains(in.Desc, "decoder-panics") {
+		_ = psatoken.RegisterProfile(panickyP2Profile{}) // replay in a fresh process
+	}
 	verdict, why := c20Classify(in.Tok)
-	ev, err := psatoken.DecodeEvidenceFromCOSE(in.Tok)
+	ev, err := c20Decode(in.Tok)
 	if err == nil && (ev == nil || ev.Claims == nil) {
-		return "decoding succeeded but returned no evidence / no claims"
+		return "decoding succeeded but returned no evidence / no claims  (" + in.Desc + ")"
 	}
 	if err == nil && verdict == "not-sign1" {
 		return fmt.Sprintf("accepted as evidence although %s  (%s)", why, in.Desc)
@@ -122,7 +148,7 @@ var c20Kind = registerKind("c20", func(in c20In) string {
 				_ = ev2.UnmarshalCOSE(bad)
 			}
 		}
-		err2 := ev2.UnmarshalCOSE(in.Tok)
+		err2 := c20Unmarshal(ev2, in.Tok)
 		if (err2 == nil) != (err == nil) {
 			return fmt.Sprintf("UnmarshalCOSE on an Evidence with a past (%s) disagrees with DecodeEvidenceFromCOSE on a fresh one: %v vs %v  (%s)", prior, err2, err, in.Desc)
 		}
@@ -177,9 +203,9 @@ func c20Replacements() []struct {
 }
 
 func TestC20_EnvelopeGrid(t *testing.T) {
-	st := NewStats("C20", "TestC20_EnvelopeGrid", "enumeration with the independent encoder around correctly signed material (7 algorithms in thorough, EdDSA+ES256 in quick; both profiles): tag in {none, 0..30, 61, 98, 18 nested twice} x array length 0..6; each of the four elements replaced by 20 other CBOR items and by indefinite-length / over-long-head forms; 2-element replacement pairs; 18 payload variants (raw map, double-wrapped, null, h'', h'f6', h'f7', array, int, text, tagged map, map+trailing, two maps, truncated map, ...) plus 19 tag numbers of every head width (incl. numbers whose last byte looks like a map head) x 8 tagged contents (null, undefined, array, int, bstr, text, map, tagged null); 0..3 trailing bytes; correct envelopes of exactly 2^12, 2^16, 2^20 (+-1) bytes alone and with trailing bytes; well-formed messages of the other COSE kinds around the same material (COSE_Sign with 0/1/2 signers incl. a correctly computed one, Mac0, Mac, Encrypt0, Encrypt, Sign1 with a counter-signature element) under 8 tags; the correct envelope in 13 text transport encodings (base64 in four alphabets, hex, data URI, base32, diagnostic notation, ...); 14 content-type / typ header values in either bucket x 6 payloads (claims as JSON text, '{}', 'null', base64 / hex of the claims, the claims map) each correctly signed; non-minimal tag/array heads; the TF-M Mac0 and Sign1 vectors and their tag-swapped variants. Every envelope is also given to Evidence objects with a past (decoded a good token / had claims attached / signed, possibly followed by a failed decode of garbage, a Mac0, a truncated token, a non-map payload), which must agree with a fresh decode. Oracle: DecodeEvidenceFromCOSE / UnmarshalCOSE success implies the independent classifier sees tag 18, 4-array, bstr, map, bstr holding exactly one map item, non-empty bstr, no trailing bytes. Non-trivial = still parses as CBOR and differs from a valid envelope in exactly one structural respect; distinct = grid cell")
+	st := NewStats("C20", "TestC20_EnvelopeGrid", "enumeration with the independent encoder around correctly signed material (7 algorithms in thorough, EdDSA+ES256 in quick; both profiles): tag in {none, 0..30, 61, 98, 18 nested twice} x array length 0..6; each of the four elements replaced by 20 other CBOR items and by indefinite-length / over-long-head forms; 2-element replacement pairs; 18 payload variants (raw map, double-wrapped, null, h'', h'f6', h'f7', array, int, text, tagged map, map+trailing, two maps, truncated map, ...) plus 19 tag numbers of every head width (incl. numbers whose last byte looks like a map head) x 8 tagged contents (null, undefined, array, int, bstr, text, map, tagged null); 0..3 trailing bytes; correct envelopes of exactly 2^12, 2^16, 2^20 (+-1) bytes alone and with trailing bytes; well-formed messages of the other COSE kinds around the same material (COSE_Sign with 0/1/2 signers incl. a correctly computed one, Mac0, Mac, Encrypt0, Encrypt, Sign1 with a counter-signature element) under 8 tags; the correct envelope in 13 text transport encodings (base64 in four alphabets, hex, data URI, base32, diagnostic notation, ...); 14 content-type / typ header values in either bucket x 6 payloads (claims as JSON text, '{}', 'null', base64 / hex of the claims, the claims map) each correctly signed; non-minimal tag/array heads; the TF-M Mac0 and Sign1 vectors and their tag-swapped variants; correct envelopes whose payload declares a registered extension profile whose own decoder panics for some values of its claim (a fault inside the claims-decoding stage: whatever becomes of the panic, the decode must not report success). Every envelope is also given to Evidence objects with a past (decoded a good token / had claims attached / signed, possibly followed by a failed decode of garbage, a Mac0, a truncated token, a non-map payload), which must agree with a fresh decode. Oracle: DecodeEvidenceFromCOSE / UnmarshalCOSE success implies the independent classifier sees tag 18, 4-array, bstr, map, bstr holding exactly one map item, non-empty bstr, no trailing bytes. Non-trivial = still parses as CBOR and differs from a valid envelope in exactly one structural respect; distinct = grid cell")
 	st.Exhaustive = true
-	st.Require = []string{"accepted", "rejected", "tag", "arity", "element", "payload", "trailing", "vector", "transcoded", "header-x-payload", "cose-kind", "size"}
+	st.Require = []string{"accepted", "rejected", "tag", "arity", "element", "payload", "trailing", "vector", "transcoded", "header-x-payload", "cose-kind", "size", "decoder-fault"}
 	defer st.Flush(t)
 	registerMu.Lock()
 	defer registerMu.Unlock()
@@ -190,7 +216,7 @@ func TestC20_EnvelopeGrid(t *testing.T) {
 	run := func(desc, class string, tok []byte, nontrivial bool) {
 		in := c20In{desc, tok}
 		msg := c20Kind(in)
-		_, err := psatoken.DecodeEvidenceFromCOSE(tok)
+		_, err := c20Decode(tok)
 		out := "rejected"
 		if err == nil {
 			out = "accepted"
@@ -211,6 +237,27 @@ func TestC20_EnvelopeGrid(t *testing.T) {
 	algs := []int64{icose.EdDSA, icose.ES256}
 	if thorough() {
 		algs = icose.AllAlgs
+	}
+	// fault inside the claims-decoding stage: a correct envelope whose payload
+	// declares a registered extension profile whose decoder has a bug and
+	// panics for some values of its own claim (and works for the others)
+	if err := psatoken.RegisterProfile(panickyP2Profile{}); err != nil {
+		t.Fatalf("VERIF-INFRA: %v", err)
+	}
+	for ai, alg := range algs {
+		kp := keyFor(alg, 1)
+		for _, mode := range []int64{1, 3, 99, -1} {
+			m := baseValid(P2, ai%3)
+			pairs := append(bodyPairs(m), icbor.P(icbor.U(265), icbor.Tstr(PanickyP2Name)), icbor.P(icbor.I(-75950), icbor.I(mode)))
+			tok, serr := icose.SignedToken(kp.Alg, kp.Priv, icbor.Encode(icbor.Map(pairs...)))
+			if serr != nil {
+				t.Fatalf("VERIF-INFRA: %v", serr)
+			}
+			run(fmt.Sprintf("%s/payload-of-extension-whose-decoder-panics/mode=%d", icose.AlgName(alg), mode), "decoder-fault", tok, true)
+			for _, extra := range [][]byte{{0x00}, {0xf6}} {
+				run(fmt.Sprintf("%s/payload-of-extension-whose-decoder-panics/mode=%d/trailing=%x", icose.AlgName(alg), mode, extra), "decoder-fault", append(append([]byte{}, tok...), extra...), true)
+			}
+		}
 	}
 	for ai, alg := range algs {
 		for _, p := range []Prof{P1, P2} {
